@@ -160,6 +160,7 @@ class PathCtx:
 class PathResult:
     def __init__(self, ctx, outcome, value=None, exc=None):
         self.pc = list(ctx.facts) + list(ctx.pc)
+        self.branch_pc = list(ctx.pc)      # decisions and assumptions only (without the facts about fresh symbols)
         self.assumptions = list(ctx.assumptions)
         self.obligations = ctx.obligations
         self.discharged_sites = ctx.discharged_sites
